@@ -94,7 +94,8 @@ def staticallyKnown (p : SKProvider) : Expr → Bool
     | .var 0 names =>
       if !staticallyKnownAll p args then false
       else match names with
-        | [n] => builtinStaticallyKnownValue n || p.queryFunction n
+        -- a local of this name hides the function when the call is evaluated
+        | [n] => builtinStaticallyKnownValue n || ((p.local? n).isNone && p.queryFunction n)
         | _ => false
     | _ => false
   | .asm _ => false
